@@ -18,7 +18,7 @@ theorem exp_nodeOK_of (dJ : DJ ℝ) (eps : ℝ) (lt : List Ty) (env : ℝ → Li
     (hloc : ∀ d : DVec ℝ, d.length = g.adim → LCurve g.adim (fun s => eval eps (env s) p) d →
       LCurve g.gdim (fun s => expF g eps (eval eps (env s) p))
         (liftG g (expF g eps (eval eps (env 0) p)) ((JlMat g eps (eval eps (env 0) p)).mulVec d)))
-    (hu : UnitQ g (expF g eps (eval eps (env 0) p))) (hsc : ScaleNZ g (expF g eps (eval eps (env 0) p))) :
+    (hu : UnitQ g (expF g eps (eval eps (env 0) p))) (hsc : ScalePos g (expF g eps (eval eps (env 0) p))) :
     NodeOK dJ eps lt env tan (.un .Exp g p) := by
   intro ty hty
   simp only [tyOf] at hty
@@ -37,7 +37,7 @@ theorem exp_nodeOK_of (dJ : DJ ℝ) (eps : ℝ) (lt : List Ty) (env : ℝ → Li
 theorem log_nodeOK_of (dJ : DJ ℝ) (eps : ℝ) (lt : List Ty) (env : ℝ → List (DVec ℝ)) (tan : List (DVec ℝ)) (g : Grp)
     (p : Prog) (hp : NodeOK dJ eps lt env tan p)
     (hloc : ∀ τ : DVec ℝ, τ.length = g.adim → GTangent g (fun s => eval eps (env s) p) τ → UnitQ g (eval eps (env 0) p) →
-      ScaleNZ g (eval eps (env 0) p) →
+      ScalePos g (eval eps (env 0) p) →
       LCurve g.adim (fun s => logF g eps (eval eps (env s) p))
         ((JlInvMat g eps (logF g eps (eval eps (env 0) p))).mulVec τ)) :
     NodeOK dJ eps lt env tan (.un .Log g p) := by
@@ -94,8 +94,8 @@ theorem rxso3_Exp_zero_nodeOK (dJ : DJ ℝ) (eps : ℝ) (heps : 0 < eps) (lt : L
   · show (qt (expF .RxSO3 eps (eval eps (env 0) p))).normSq = 1
     simp only [expF, rxso3Exp, torx, hz, so3Exp_zero eps heps]
     simp [qt, RxSO3.toList, Quat.toList, Quat.normSq]
-  · show nth (expF .RxSO3 eps (eval eps (env 0) p)) 4 ≠ 0
-    simp [expF, rxso3Exp, RxSO3.toList, torx, Quat.toList, Real.exp_ne_zero]
+  · show 0 < nth (expF .RxSO3 eps (eval eps (env 0) p)) 4
+    simp [expF, rxso3Exp, RxSO3.toList, torx, Quat.toList, Real.exp_pos]
 
 /-- `sim3` `Exp` node at the zero vector -/
 theorem sim3_Exp_zero_nodeOK (dJ : DJ ℝ) (eps : ℝ) (heps : 0 < eps) (lt : List Ty) (env : ℝ → List (DVec ℝ)) (tan : List (DVec ℝ))
@@ -109,8 +109,8 @@ theorem sim3_Exp_zero_nodeOK (dJ : DJ ℝ) (eps : ℝ) (heps : 0 < eps) (lt : Li
   · show (qt (expF .Sim3 eps (eval eps (env 0) p)) 3).normSq = 1
     simp only [expF, sim3Exp, rxso3Exp, tosim, hzp, so3Exp_zero eps heps]
     simp [qt, Sim3.toList, Vec3.toList, Quat.toList, Quat.normSq]
-  · show nth (expF .Sim3 eps (eval eps (env 0) p)) 7 ≠ 0
-    simp [expF, sim3Exp, rxso3Exp, Sim3.toList, tosim, Quat.toList, Vec3.toList, Real.exp_ne_zero]
+  · show 0 < nth (expF .Sim3 eps (eval eps (env 0) p)) 7
+    simp [expF, sim3Exp, rxso3Exp, Sim3.toList, tosim, Quat.toList, Vec3.toList, Real.exp_pos]
 
 theorem w_sq_of_unit (q : Quat ℝ) (hu : q.normSq = 1) (hv : q.vec = ⟨0, 0, 0⟩) : q.w * q.w = 1 := by
   have hx : q.x = 0 := by have := congrArg Vec3.x hv; simpa [Quat.vec] using this
